@@ -41,6 +41,19 @@ def lemma_isum_ge(a: A[int, 1], lo: int, hi: int, t: int):
 
 
 @lemma(shared=True)
+def lemma_isum_ge2(a: A[int, 1], lo: int, hi: int, s: int, t: int):
+    """a sum of non-negative terms dominates the sum of any two of them"""
+    requires(forall(lo, hi, lambda u: a[u] >= 0), lo <= s, s < t, t < hi)
+    ensures(ISUM(a, lo, hi) >= a[s] + a[t])
+    decreases(hi - lo)
+    unfold(ISUM(a, lo, hi))
+    if t < hi - 1:
+        lemma_isum_ge2(a, lo, hi - 1, s, t)
+    else:
+        lemma_isum_ge(a, lo, hi - 1, s)
+
+
+@lemma(shared=True)
 def lemma_isum_le(a: A[int, 1], lo: int, hi: int, m: int):
     requires(lo <= hi, forall(lo, hi, lambda t: a[t] <= m))
     ensures(ISUM(a, lo, hi) <= m * (hi - lo))
